@@ -41,6 +41,10 @@ type Cfg struct {
 	ClockOrigin int64      `json:"clock0"`
 	Keys        int        `json:"keys"`
 	Ticker      bool       `json:"ticker,omitempty"`
+	// OnDeletion panics after it has taken note of every n-th notification (0: never). Every executor
+	// of the harness contains a panic the way a goroutine boundary with a recover would; the other
+	// notifications must still arrive, each once.
+	HandlerPanicEvery int `json:"handler_panic_every,omitempty"`
 }
 
 func (c *Cfg) W() int {
@@ -451,11 +455,17 @@ func NewRunner(w *simrt.World, cfg *Cfg) *Runner {
 			r.OnAtomic(ev)
 		}
 	}
+	asyncSeen := 0
 	o.OnDeletion = func(e otter.DeletionEvent[int, int]) {
 		ev := r.mkEvent(e, false)
 		r.Events = append(r.Events, ev)
 		if r.OnAsync != nil {
 			r.OnAsync(ev)
+		}
+		asyncSeen++
+		if cfg.HandlerPanicEvery > 0 && asyncSeen%cfg.HandlerPanicEvery == 0 {
+			r.fault("ondeletion-handler-panic")
+			panic(injectedPanic{-1})
 		}
 	}
 	func() {
